@@ -3317,8 +3317,8 @@ class NonTensorData:
 
     def _apply_nest(self, *args, out=None, **kwargs):
         # kwargs["filter_empty"] = False
-        if out is not None:
-            return out
+        # the entry of the result carries the data of self: an entry that out already holds
+        # under this key is replaced by the caller, not handed back with its stale data
         return self.empty(
             batch_size=kwargs.get("batch_size"),
             device=kwargs.get("device", NO_DEFAULT),
